@@ -392,7 +392,9 @@ TEvent ==
   /\ R.kind = "PaymentSent" => R.preimage_ok
   \* C14: the fulfil's attribution data reports the hold time of every hop of the path, whatever way the claim took
   \* through the hops (directly, out of a holding cell, after a reconnection, behind a monitor write)
-  /\ R.kind = "PaymentPathSuccessful" => G14(R.hold_times = R.hops)
+  \* (a claim that was replayed from a monitor after a restart, or made on chain, carries none: judged on runs without
+  \*  restarts and closed channels)
+  /\ (R.kind = "PaymentPathSuccessful" /\ fw.crashed = {} /\ \A e \in DOMAIN link : ~Closed(e)) => G14(R.hold_times = R.hops)
   \* A payment whose preimage this node has been given (update_fulfill_htlc delivered to it) is not
   \* reported failed.  After a restart from a stale ChannelManager the library documents one rare
   \* exception (PaymentFailed after a *completed* PaymentSent, to be ignored by the user): so after a
